@@ -32,12 +32,14 @@ func leBytes32(x *big.Int) []byte {
 	return out
 }
 
-// nonCanonicalPoints lists every decodable 32-byte encoding that is not the
+// ncPoints lists every decodable 32-byte encoding that is not the
 // canonical encoding of its point: y >= p (y = p..p+18) with either sign, and
 // the x = 0 points with the sign bit set.
-var nonCanonicalPoints = func() [][]byte {
-	if ColdStart() {
-		return nil // the cold-start worker must not touch the library before its tasks run
+var ncMemo [][]byte
+
+func ncPoints() [][]byte {
+	if ncMemo != nil {
+		return ncMemo
 	}
 	var out [][]byte
 	try := func(b []byte) {
@@ -66,8 +68,12 @@ var nonCanonicalPoints = func() [][]byte {
 		b[31] |= 0x80
 		try(b)
 	}
+	if len(out) == 0 {
+		out = [][]byte{make([]byte, 32)} // decoding is broken on this tree; keep the generators total
+	}
+	ncMemo = out
 	return out
-}()
+}
 
 func makeDom2(ph bool, ctx string) []byte {
 	if !ph && ctx == "" {
